@@ -267,22 +267,25 @@ class GradOracle(Observer):
         if rec is None or rec.get("h") != ev["tgt"]:
             return
         if out.status == "unexp":
-            if not rec.get("tainted") and rec.get("expected") is not None and not w.grad_poisoned:
+            if rec.get("tainted") is False and "model_error" not in rec and not w.grad_poisoned and not getattr(self, "_aborted_before", False):
+                via = ",".join(rec.get("layers") or []) or "plain"
                 w.violation(
                     self.prop,
                     f"{self.name}.backward_raised",
                     f"step {w.nstep}: backward() on a fully recorded graph raised {out.exc}: {out.msg[:200]}",
-                    tag=f"{self.name}.backward_raised/{out.exc}",
+                    tag=f"{self.name}.backward_raised/{out.exc}/via={via}",
                 )
+            self._aborted_before = True
             return
         if out.status == "fail" and out.exc == "InvalidBackprop":
-            if rec.get("expected") is not None and not rec.get("tainted") and not w.grad_poisoned:
+            if rec.get("tainted") is False and "model_error" not in rec and not w.grad_poisoned and not getattr(self, "_aborted_before", False):
                 w.violation(
                     self.prop,
                     f"{self.name}.invalid_backprop_on_intact_graph",
                     f"step {w.nstep}: backward() raised InvalidBackprop although no part of the graph had been cleared",
                     tag=f"{self.name}.invalid_backprop_on_intact_graph",
                 )
+            self._aborted_before = True
             return
         if out.status != "ok" or not rec.get("tracking"):
             return
@@ -305,7 +308,7 @@ class GradOracle(Observer):
             e = exp.get(k)
             if e is None:
                 continue
-            g = t.grad
+            g = w.read_grad(t, k)
             i = w.info[k]
             role = "view" if (k in rec["pre_ids"]) else "owner"
             if e[0] == "none":
@@ -385,7 +388,7 @@ class ValueOracle(Observer):
         if out.status == "unexp" and k in ("op", "inplace", "setshape"):
             tgt = ev.get("tgt")
             srcs = [r["t"] for r in ev.get("args", []) if "t" in r] + ([tgt] if tgt is not None else [])
-            if srcs and all(w.judged04(x) for x in srcs if x in w.T) and w.tracking:
+            if srcs and all(w.judged04(x) for x in srcs if x in w.T) and w.tracking and not w.aborted_backward:
                 w.violation(
                     self.prop,
                     "C04.statement_raised",
@@ -485,6 +488,10 @@ class CrossScheduleOracle(Observer):
     """C01: the same dataflow DAG executed under several schedules yields the same gradients for
     every corresponding tensor (bit-exact when the run is certified exact) and the same values."""
 
+    def __init__(self, prop="C01", skip_above=900):
+        self.prop = prop
+        self.skip_above = skip_above
+
     def attach(self, w):
         self.ref = None  # schedule 0: logical handle -> (grad array or None, data)
 
@@ -497,8 +504,8 @@ class CrossScheduleOracle(Observer):
         off = ev["off"]
         cur = {}
         for h, t in w.T.items():
-            if off <= h < off + 900:
-                g = t.grad
+            if off <= h < off + self.skip_above:
+                g = w.read_grad(t, h)
                 e = (rec.get("expected") or {}).get(h)
                 mv = w.tape.val(w.info[h].nid)
                 cur[h - off] = (None if g is None else np.array(g, copy=True), np.array(t.data, copy=True), w.info[h].const, e, mv)
@@ -523,10 +530,10 @@ class CrossScheduleOracle(Observer):
                 # sequences may re-associate: values are compared bit-exactly only on certified
                 # exact runs, otherwise against the largest magnitude seen in the run (cancellation)
                 if w.exact or not close(d, d0.astype(np.float64), False, w.tape.vmax, dtype=w.tol_dtype):
-                    if w.violation("C01", "C01.schedule_value", f"step {w.nstep}: logical tensor {lh} has different values under schedule {ev['j']}", tag="C01.schedule_value"):
+                    if w.violation(self.prop, f"{self.prop}.schedule_value", f"step {w.nstep}: logical tensor {lh} has different values under schedule {ev['j']}", tag=f"{self.prop}.schedule_value"):
                         return
             if (g is None) != (g0 is None):
-                if w.violation("C01", "C01.schedule_grad_presence", f"step {w.nstep}: logical tensor {lh}: grad is {'None' if g is None else 'set'} under schedule {ev['j']} but {'None' if g0 is None else 'set'} under schedule 0", tag="C01.schedule_grad_presence"):
+                if w.violation(self.prop, f"{self.prop}.schedule_grad_presence", f"step {w.nstep}: logical tensor {lh}: grad is {'None' if g is None else 'set'} under schedule {ev['j']} but {'None' if g0 is None else 'set'} under schedule 0", tag=f"{self.prop}.schedule_grad_presence"):
                     return
                 continue
             if g is None or nd:
@@ -535,10 +542,10 @@ class CrossScheduleOracle(Observer):
             ok = np.array_equal(g, g0) if (w.exact and g.dtype == np.float64) else close(g, g0.astype(np.float64), False, sc, dtype=w.tol_dtype)
             if not ok:
                 if w.violation(
-                    "C01",
-                    "C01.schedule_grad",
+                    self.prop,
+                    f"{self.prop}.schedule_grad",
                     f"step {w.nstep}: logical tensor {lh}: gradient {g.tolist()!r:.120} under schedule {ev['j']} differs from {g0.tolist()!r:.120} under schedule 0",
-                    tag="C01.schedule_grad",
+                    tag=f"{self.prop}.schedule_grad",
                 ):
                     return
         w.probe("c01.cross_schedule_ok")
@@ -587,11 +594,17 @@ class ViewGradOracle(Observer):
             b = v.base
             if b is None:
                 continue  # the link was dropped (a later use); nothing to compare with
-            bg = b.grad
+            bg = w.read_grad(b, "base")
             if bg is None:
                 continue
-            g1 = v.grad
-            g2 = v.grad
+            n_err = len(w.grad_read_errors)
+            g1 = w.read_grad(v, h)
+            g2 = w.read_grad(v, h)
+            if len(w.grad_read_errors) > n_err:
+                e = w.grad_read_errors[-1]
+                if w.violation("C06", "C06.view_grad_raises", f"step {w.nstep}: reading .grad of view handle {h} raised {e[2]}: {e[3]}", tag=f"C06.view_grad/raises/{e[2]}"):
+                    return
+                continue
             if g1 is None:
                 if w.violation("C06", "C06.view_grad_missing", f"step {w.nstep}: view handle {h}: base.grad is available but view.grad is None", tag="C06.view_grad/missing"):
                     return
@@ -622,12 +635,12 @@ class ViewGradOracle(Observer):
         items = [(h, t) for h, t in w.T.items()]
         for x in range(len(items)):
             hx, tx = items[x]
-            gx = tx.grad
+            gx = w.read_grad(tx, hx)
             if gx is None or gx.size == 0:
                 continue
             for y in range(x + 1, len(items)):
                 hy, ty = items[y]
-                gy = ty.grad
+                gy = w.read_grad(ty, hy)
                 if gy is None or gy.size == 0:
                     continue
                 if np.shares_memory(gx, gy) and not np.shares_memory(tx.data, ty.data):
@@ -689,7 +702,7 @@ class PartialClearOracle(Observer):
         for h, t in w.T.items():
             if h in rec["pre_ids"] or h not in exp or t.base is not None:
                 continue  # views (also ones whose family MyGrad has half-forgotten) read their base's gradient
-            g = t.grad
+            g = w.read_grad(t, h)
             pre = rec["pre_grads"].get(h)
             if g is None:
                 continue
@@ -817,3 +830,215 @@ class ConstOracle(Observer):
                 ):
                     return
         w.probe("c10.flags_checked")
+
+
+# ======================================================================================
+# C12 - inputs never modified, gradients never aliased
+# ======================================================================================
+def _ck(a):
+    a = np.asarray(a)
+    return (a.tobytes(), a.shape, a.dtype.str)
+
+
+class NoMutationOracle(Observer):
+    WATCH = ("op", "inplace", "backward", "terminal", "setshape", "clear", "null_grad", "nnet", "readgrad", "save", "load")
+
+    def attach(self, w):
+        self.pre = None
+
+    def before(self, w, ev):
+        if ev["k"] not in self.WATCH:
+            self.pre = None
+            return
+        tgt = None
+        if ev["k"] in ("inplace", "setshape") and ev["tgt"] in w.T:
+            tgt = w.T[ev["tgt"]].data
+        elif ev["k"] == "op" and ev.get("out_arr") in w.A:
+            tgt = w.A[ev["out_arr"]]
+        arrs = {}
+        for ha, a in w.A.items():
+            if tgt is not None and a.size and tgt.size and np.shares_memory(a, tgt):
+                continue
+            arrs[ha] = _ck(a)
+        data = {}
+        fam = set(w.info[ev["tgt"]].fam.members) if (ev["k"] in ("inplace", "setshape") and ev["tgt"] in w.info) else set()
+        for h, t in w.T.items():
+            if h in fam:
+                continue
+            if tgt is not None and t.data.size and tgt.size and np.shares_memory(t.data, tgt):
+                continue
+            data[h] = _ck(t.data)
+        self.pre = (arrs, data)
+
+    def after(self, w, ev, out):
+        if self.pre is None:
+            return
+        arrs, data = self.pre
+        self.pre = None
+        k = ev["k"]
+        what = k + ":" + str(ev.get("form") or ev.get("op") or ev.get("layer") or "")
+        seed_h = (ev.get("seed") or {}).get("a") if k == "backward" else None
+        seed_t = (ev.get("seed") or {}).get("t") if k == "backward" else None
+        operands = {r["a"] for r in ev.get("args", []) if "a" in r}
+        for ha, c in arrs.items():
+            if ha in w.A and _ck(w.A[ha]) != c:
+                role = "seed" if ha == seed_h else ("operand" if ha in operands else ("held_" + w.a_kind.get(ha, "array")))
+                if w.violation(
+                    "C12",
+                    "C12.caller_array_modified",
+                    f"step {w.nstep} ({what}): caller array {ha} ({role}) changed although it is not the explicit target",
+                    tag=f"C12.caller_array_modified/{self._lasttag(w, ev)}/role={role}",
+                ):
+                    return
+        for h, c in data.items():
+            if h in w.T and _ck(w.T[h].data) != c:
+                role = "seed_tensor" if h == seed_t else ("operand" if any(r.get("t") == h for r in ev.get("args", [])) else "other")
+                if w.violation(
+                    "C12",
+                    "C12.tensor_data_modified",
+                    f"step {w.nstep} ({what}): data of tensor handle {h} ({role}) changed although it is not the explicit target",
+                    tag=f"C12.tensor_data_modified/{what}/role={role}",
+                ):
+                    return
+        w.probe("c12.events_checked")
+        if k == "backward":
+            # every array handed to backward(grad) in this run (recorded even when the call is not
+            # judged: the aliasing it causes is still there at the next backward)
+            import weakref as _wr
+
+            if not hasattr(self, "seeds"):
+                self.seeds = []
+            seed = ev.get("seed") or {}
+            if "a" in seed and seed["a"] in w.A:
+                self.seeds.append(_wr.ref(w.A[seed["a"]]))
+            if "t" in seed and seed["t"] in w.T:
+                self.seeds.append(_wr.ref(w.T[seed["t"]].data))
+        if k == "backward" and out.status == "ok" and w.tracking:
+            rec = w.last_backward
+            if rec is not None and rec.get("tainted"):
+                w.count("c12.alias_unjudged.partially_cleared")  # C09's territory
+                self.poisoned = True  # gradients left behind by it stay around
+            elif not getattr(self, "poisoned", False):
+                self.alias_check(w, ev)
+
+    @staticmethod
+    def _lasttag(w, ev):
+        if ev["k"] != "backward":
+            return ev["k"] + ":" + str(ev.get("form") or ev.get("op") or ev.get("layer") or "")
+        # which op type produced the terminal (GRU etc. have hand-written backward())
+        h = ev["tgt"]
+        mb = w.info[h].made_by if h in w.info else "?"
+        return "backward/terminal_made_by=" + mb
+
+    def alias_check(self, w, ev):
+        """after a backward: gradients alias each other only where data does; never data; never a
+        caller array.  Aliasing that goes back to a seed handed to backward(grad) is tagged
+        via_seed (one root cause: the seed is stored without copying)."""
+        seed = ev.get("seed") or {}
+        if not hasattr(self, "seeds"):
+            self.seeds = []
+        items = [(h, t, w.read_grad(t, h)) for h, t in w.T.items()]
+        grads = [(h, t, g) for h, t, g in items if g is not None and isinstance(g, np.ndarray) and g.size]
+
+        def seed_aliased(g):
+            for r in self.seeds:
+                a = r()
+                if a is not None and a.size and np.shares_memory(g, a):
+                    return True
+            return False
+
+        sa = {h: seed_aliased(g) for h, t, g in grads}
+        for x in range(len(grads)):
+            hx, tx, gx = grads[x]
+            via = "via_seed" if sa[hx] else "other"
+            for y in range(x + 1, len(grads)):
+                hy, ty, gy = grads[y]
+                if np.shares_memory(gx, gy) and not (tx.data.size and ty.data.size and np.shares_memory(tx.data, ty.data)):
+                    v2 = "via_seed" if (sa[hx] and sa[hy]) else "other"
+                    for hh, tt in ((hx, tx), (hy, ty)):
+                        if w.info[hh].stale and tt.base is not None:
+                            v2 = "stale_view"
+                    if w.violation("C12", "C12.grad_alias", f"step {w.nstep}: gradients of handles {hx},{hy} share memory but their data do not", tag=f"C12.grad_alias/grad_grad/{v2}"):
+                        return
+            for hy, ty, _ in items:
+                if ty.data.size and np.shares_memory(gx, ty.data):
+                    if w.violation("C12", "C12.grad_alias", f"step {w.nstep}: gradient of handle {hx} shares memory with the data of handle {hy}", tag=f"C12.grad_alias/grad_data/{via}"):
+                        return
+            for ha, a in w.A.items():
+                if w.a_kind.get(ha) == "grad":
+                    continue
+                if a.size and np.shares_memory(gx, a):
+                    if w.violation("C12", "C12.grad_alias", f"step {w.nstep}: gradient of handle {hx} shares memory with caller array {ha}", tag=f"C12.grad_alias/grad_caller_array/{via}"):
+                        return
+        # operational form: edit one gradient in place, nothing else may change
+        for hx, tx, gx in grads[:6]:
+            if not gx.flags.writeable:
+                continue
+            via = "via_seed" if sa[hx] else "other"
+            others_g = {h: _ck(g) for h, t, g in grads if h != hx and not (t.data.size and tx.data.size and np.shares_memory(t.data, tx.data))}
+            datas = {h: _ck(t.data) for h, t, _ in items}
+            arrs = {ha: _ck(a) for ha, a in w.A.items() if w.a_kind.get(ha) != "grad"}
+            gx += 1
+            try:
+                for h, t, g in grads:
+                    if h in others_g and _ck(g) != others_g[h]:
+                        v3 = via
+                        for hh, tt in ((hx, tx), (h, t)):
+                            if w.info[hh].stale and tt.base is not None:
+                                v3 = "stale_view"
+                        if w.violation("C12", "C12.grad_edit_leaks", f"step {w.nstep}: editing the gradient of handle {hx} in place changed the gradient of handle {h}", tag=f"C12.grad_edit_leaks/grad/{v3}"):
+                            return
+                for h, t, _ in items:
+                    if _ck(t.data) != datas[h]:
+                        if w.violation("C12", "C12.grad_edit_leaks", f"step {w.nstep}: editing the gradient of handle {hx} in place changed the data of handle {h}", tag=f"C12.grad_edit_leaks/data/{via}"):
+                            return
+                for ha, a in w.A.items():
+                    if ha in arrs and _ck(a) != arrs[ha]:
+                        if w.violation("C12", "C12.grad_edit_leaks", f"step {w.nstep}: editing the gradient of handle {hx} in place changed caller array {ha}", tag=f"C12.grad_edit_leaks/caller_array/{via}"):
+                            return
+            finally:
+                gx -= 1
+        w.probe("c12.alias_checked")
+
+
+# ======================================================================================
+# C14 - shape / dtype / type of every stored gradient; seeding
+# ======================================================================================
+class GradShapeOracle(Observer):
+    def after(self, w, ev, out):
+        for h, t in w.T.items():
+            g = w.read_grad(t, h)
+            if g is None:
+                continue
+            mb = w.info[h].made_by
+            if type(g) is not np.ndarray:
+                if w.violation("C14", "C14.grad_type", f"step {w.nstep}: handle {h}: .grad is a {type(g).__name__}, not a numpy.ndarray", tag=f"C14.grad_type/{type(g).__name__}/made_by={mb}"):
+                    return
+                continue
+            if g.shape != t.shape:
+                if w.violation("C14", "C14.grad_shape", f"step {w.nstep}: handle {h}: grad.shape {g.shape} != tensor.shape {t.shape}", tag=f"C14.grad_shape/made_by={mb}/ev={ev['k']}"):
+                    return
+                continue
+            if g.dtype != t.dtype:
+                if w.violation("C14", "C14.grad_dtype", f"step {w.nstep}: handle {h}: grad.dtype {g.dtype} != tensor.dtype {t.dtype}", tag=f"C14.grad_dtype/made_by={mb}/ev={ev['k']}"):
+                    return
+                continue
+        if ev["k"] == "backward":
+            w.probe("c14.checked_after_backward")
+            rec = w.last_backward
+            if ev.get("fail") and rec is not None:
+                if out.status == "nofail":
+                    w.violation("C14", "C14.bad_seed_accepted", f"step {w.nstep}: backward() accepted a seed that does not broadcast to the tensor's shape", tag="C14.bad_seed_accepted")
+                    return
+                if out.status == "fail":
+                    # no gradient is written: nothing new, nothing changed (becoming None is allowed)
+                    for h, t in w.T.items():
+                        g = w.read_grad(t, h)
+                        pre = rec["pre_grads"].get(h)
+                        if g is None:
+                            continue
+                        ga = np.asarray(g)
+                        if pre is None or pre[1] != ga.tobytes() or pre[3] != ga.shape:
+                            if w.violation("C14", "C14.bad_seed_wrote_grad", f"step {w.nstep}: a rejected seed still wrote a gradient to handle {h}", tag="C14.bad_seed_wrote_grad"):
+                                return
+                    w.probe("c14.bad_seed_rejected")
